@@ -93,6 +93,31 @@ func (c *Client) fault(call *Call) error {
 	return nil
 }
 
+// RunawayGrowth is the panic value of the store's growth guard.
+type RunawayGrowth struct{ Msg string }
+
+// MaxObjectBytes is the request size limit of a real API server (etcd's 1.5 MiB): a controller that keeps growing an
+// object is told so, instead of taking the simulation's memory with it.
+const MaxObjectBytes = 3 << 19
+
+// sizeGuard rejects objects beyond the API server's limit and stops a run whose committed versions add up to more than
+// 512 MiB (every version is kept for the monitors): that is runaway growth of some object, reported by the caller.
+func (s *Store) sizeGuard(gvk schema.GroupVersionKind, k Key, o Obj) error {
+	b, _ := json.Marshal(o)
+	if len(b) > MaxObjectBytes {
+		s.tooLarge++
+		if s.tooLarge >= 10 {
+			panic(RunawayGrowth{Msg: fmt.Sprintf("%s was rejected %d times for exceeding the API server's object size limit (%d bytes offered, limit %d)", k, s.tooLarge, len(b), MaxObjectBytes)})
+		}
+		return apierrors.NewRequestEntityTooLargeError(fmt.Sprintf("simapi: %s is %d bytes, limit is %d", k, len(b), MaxObjectBytes))
+	}
+	s.committedBytes += int64(len(b))
+	if s.committedBytes > 512<<20 {
+		panic(RunawayGrowth{Msg: fmt.Sprintf("the committed object versions of this run exceed 512 MiB (last write: %s, %d bytes)", k, len(b))})
+	}
+	return nil
+}
+
 func (s *Store) checkVersion(gvk schema.GroupVersionKind) error {
 	gk := gvk.GroupKind()
 	if gk.Group == "autoscaling" {
@@ -646,6 +671,9 @@ func (c *Client) commit(call *Call, verb string, gvk schema.GroupVersionKind, k 
 		// no-op: nothing is committed, no event, resourceVersion unchanged
 		_ = c.end(call, nil)
 		return decodeInto(old, out, gvk)
+	}
+	if err := s.sizeGuard(gvk, k, nc); err != nil {
+		return c.end(call, err)
 	}
 	if s.BeforeCommit != nil {
 		err, lose := s.BeforeCommit(call)
